@@ -227,7 +227,7 @@ func (r *resolver) resolve(ctx context.Context, vk resolve.VersionKey, requireme
 			opt = testImports | optImports | providedImports
 		}
 		imps, err := r.imports(ctx, cur.VersionKey, opt)
-		if err == resolve.ErrNotFound && !first {
+		if errors.Is(err, resolve.ErrNotFound) && !first {
 			// If the concrete version ver can't be found, it's only
 			// a fatal error in the first instance; otherwise proceed.
 			continue
